@@ -1,7 +1,7 @@
 """C02 — far-field propagation puts the Fraunhofer field on the right output samples.
 
 Tie: Gen/Window.lean (window block of propagate_dft, _mask_shape, _mask_shift), Gen/PropagateMeta.lean (alpha, dft2 call
-arguments, metadata), Gen/Extent.lean and Gen/Util.lean (boundary) are regenerated from the repository (translator);
+arguments, metadata, shape/prop_shape defaults, mask guard and out_extent branch), Gen/Extent.lean and Gen/Util.lean (boundary) are regenerated from the repository (translator);
 Model/Propagate.lean + Model/Fourier.lean (np.fix split, Wavefront.field) are hand models run at Float and compared here with the real `lentil.propagate_dft` (placement exactly, values to 1e-9 relative).
 Oracle: direct Fraunhofer double sum per output sample in np.longdouble on the real result, exact zeros outside the
 evaluated window, metadata."""
@@ -21,29 +21,50 @@ LEVEL_TEXT = ('Lean 4 theorems, for all input fields/offsets, samplings, tilt sh
               'values with C20\'s boundary (mask_extent_is_support_bbox: it is the bounding box of the non-zero samples). Window arithmetic, '
               '_dft_alpha, its call site, shape·oversample, the metadata hand-over and every argument of the dft2 call and of the output Field are '
               'regenerated from propagate.py/extent.py/field.py on every run (boundary from util.py). The model\'s split and mask box are compared with '
-              'the ones read off the code\'s own array_extent/dft2 calls. For a common shift the sum over fields is '
+              'the ones read off the code\'s own array_extent/dft2 calls. The call as the caller writes it (propagateDftCall): shape=None is the wavefront shape, '
+              'prop_shape=None is shape, an int is a square (shape_defaults), without a mask the call is propagateDft at the resolved shapes (call_no_mask, '
+              'call_all_defaults), with a mask of the output shape it is propagateDft on the mask\'s bounding box and an all-zero mask is IndexError '
+              '(call_mask_matching), and the call ends in ValueError iff BOTH mask dimensions differ from the output array (call_mask_refused_iff) — the '
+              'defaults, the broadcasting, the guard, the threshold and both out_extent calls are regenerated from propagate_dft. For a common shift the sum over fields is '
               'the Fraunhofer sum of Wavefront.field of the input (propagateDft_common_shift).')
-LEVEL_NOTE = ('Partial: trunc on floats enters as the class operation TruncLike.trunc (Float truncation in the driver, floor/ceil by sign at R; '
-              'tied by the differential check of the split); the shape/prop_shape defaults and the mask/no-mask choice of out_extent are parameters of the '
-              'hand model (differential only); oversample also scales the shift, which is C04\'s Field.shift. '
-              'Trusted: Lean kernel, py2lean subset semantics, NumPy dot/exp/broadcast/fix as modelled, generator coverage.')
+LEVEL_NOTE = ('Partial: trunc on floats enters as the class operation TruncLike.trunc (Float truncation in the driver, floor/ceil by sign at R); '
+              'the two are tied by the differential check of every split and by a probe of 8 adversarial doubles per case (integers +-1 ulp, halves, '
+              '+-0.0, subnormals, up to 2**52) compared exactly with np.fix. A mask that differs from the output array in ONE dimension is accepted by the '
+              'code (the model follows it; known finding KF-C02-mask-shape-guard, kf_mask_shape_guard); placement theorems assume a mask of the output '
+              'shape. oversample also scales the shift, which is C04\'s Field.shift. '
+              'Trusted: Lean kernel, py2lean subset semantics, NumPy dot/exp/broadcast_to/fix as modelled, generator coverage.')
 TECHNIQUE = 'Lean 4 proof (omega + ring) over translator-regenerated window kernel + Float model with differential correspondence'
-GEN = ['Extent', 'FieldIdx', 'Window', 'PropagateMeta', 'PlaneType', 'Util', 'Helper', 'Helper20', 'Hex', 'Mesh', 'FieldMerge', 'FieldDispatch', 'FieldAccum']
+GEN = ['Extent', 'FftScratch', 'FieldDispatch', 'FieldIdx', 'FieldMerge', 'FourierWiring', 'Helper', 'Helper20', 'Hex', 'Mesh', 'PlanePhase', 'PlaneType', 'PropagateMeta', 'Util', 'Window', 'FieldAccum']      # every Gen module the model, lemmas and driver import (transitively)
 OPS = ['C02']
 RULE = ('cases: pupils 1..6 x 1..6 (even/odd/non-square, off-centre support, 1..3 segments) with dyadic amplitude and OPD, '
         'alpha per axis in [0.02,0.35] (scalar or per-axis dx/du), oversample 1..3, output shape None/int/pair, prop_shape <= shape, '
-        'random masks (rectangles with holes, single pixels), optional Tilt planes (sub-pixel to beyond the output), and the '
+        'random masks (rectangles with holes, single pixels; 1 in 12 all-zero, 1 in 6 of a wrong shape in one or both dimensions), optional Tilt planes (sub-pixel to beyond the output), and the '
         'image->pupil direction (second propagation of a propagated wavefront); distinct = (direction, pupil shape, offsets, os, '
         'shape, prop_shape, mask box, tilt class); non-trivial = window clipped / mask / tilt / per-axis sampling / offset field'
         ' Extremes stream (5% of quick, 240 cases in search/thorough): every length scaled by 1e-9..1e3, per-axis pixel scales differing by a relative 1e-5..5e-3 only, large (64..100) critically sampled pupils with an odd dimension (oracle only).')
 TRUSTED = ['np.dot(E1.dot(f), E2), np.exp, np.outer, np.fix, np.broadcast_to as modelled in Model/Fourier.lean and Model/Propagate.lean',
            'lentil.fourier.dft2 = Model dft2 (checked by C01); lentil.field.insert = Model insertArr (checked by C06)']
-UNPROVEN = ['shape/prop_shape defaults and the mask/no-mask branch: parameters of the model, differential only',
-            'np.fix on IEEE doubles = TruncLike.trunc: class operation, tied by the differential comparison of the split']
-ASSUMPTIONS = ['shape >= 1, prop_shape >= 1, non-empty mask',
-               'generated tilt shifts keep a fractional part in [0.05,0.95] so that np.fix is insensitive to rounding']
+UNPROVEN = ['np.fix on IEEE doubles = TruncLike.trunc: class operation, tied differentially (splits of every case + adversarial probe)',
+            'np.broadcast_to(x, (2,)) for an int or a pair: NumPy contract (ShapeArg.bcast2)',
+            'mask differing from the output array in exactly one dimension: accepted by the code, window centred on the mask (open known finding KF-C02-mask-shape-guard)']
+ASSUMPTIONS = ['shape >= 1, prop_shape >= 1; the wavefront has passed through a plane (wavefront.shape is a pair)',
+               'a mask without support must be refused: ValueError or NumPy\'s IndexError are both accepted as the refusal',
+               'generated tilt shifts keep a fractional part in [0.05,0.95] so that np.fix is insensitive to rounding (the truncation probe covers the rest)']
 
 WL, Z = 5e-7, 8.0
+MASK_MSG = 'mask shape mismatch not refused'
+
+def matches_finding(kf, c, msg):
+    if kf.get('id') != 'KF-C02-mask-shape-guard': return False
+    st = c['stages'][-1]
+    # input class of the finding: the mask differs from the output array in exactly one dimension
+    return bool(isinstance(msg, str) and msg.startswith(MASK_MSG) and (st['mask'] or {}).get('bad') in ('rows', 'cols'))
+
+def replay_finding(kf):
+    if kf.get('id') != 'KF-C02-mask-shape-guard': return False
+    c = kf['witness']
+    msg = oracle(c, impl(c))
+    return bool(msg and matches_finding(kf, c, msg))
 
 def _dy(rng, lo, hi, q=8):
     return float(rng.integers(int(lo * q), int(hi * q) + 1)) / q
@@ -115,6 +136,17 @@ def _stage(rng, in_shape, dx, tier, allow_tilt=True, wl=WL, z=Z):
             # positive support of any size; entries at or below the threshold 0 (zero, negative) are not support
             bits = [float(b) * float(rng.choice([0.25, 1.0, 3.0])) if b else float(rng.choice([0.0, 0.0, -0.5, -2.0])) for b in bits]
         mask = {'shape': [int(S[0]), int(S[1])], 'bits': bits, 'dtype': kind}
+        bad = int(rng.integers(0, 12))
+        if bad == 0:
+            # all-zero (or all sub-threshold) mask: no support, lentil.boundary has nothing to bound -> refusal expected
+            mask['bits'] = [0.0 if kind != 'float' else float(rng.choice([0.0, -1.0])) for _ in bits]; mask['bad'] = 'empty'
+            if kind != 'float': mask['bits'] = [int(b) for b in mask['bits']]
+        elif bad <= 2:
+            # mask whose shape is not the output shape: both dimensions wrong (refused) or only one (the guard as written lets it pass)
+            which = 'both' if bad == 1 else ['rows', 'cols'][int(rng.integers(0, 2))]
+            S2 = [int(S[0] + (int(rng.integers(1, 4)) if which in ('both', 'rows') else 0)), int(S[1] + (int(rng.integers(1, 4)) if which in ('both', 'cols') else 0))]
+            mk2 = np.zeros(S2, dtype=float); mk2[:S[0], :S[1]] = np.array(bits, dtype=float).reshape(S)
+            mask = {'shape': S2, 'bits': [float(x) if kind == 'float' else int(x) for x in mk2.ravel()], 'dtype': kind, 'bad': which}
     tilts = []
     if allow_tilt and rng.integers(0, 3) == 0:
         for _ in range(int(rng.integers(1, 3))):
@@ -212,7 +244,25 @@ def generate(rng, tier):
     n = {'quick': 240, 'thorough': 3000, 'search': 300}[tier]
     out = [_case(rng, tier, k) for k in range(n)]
     out += _extremes(rng, tier, {'quick': 12, 'thorough': 240, 'search': 240}[tier])
+    # IEEE tie of the model's truncation (TruncLike.trunc at Float) with np.fix: adversarial doubles per case
+    for c in out:
+        if not c.get('nomodel'): c['fix_probe'] = _fix_probe(rng)
     return out
+
+def _fix_probe(rng):
+    v = []
+    for _ in range(8):
+        k = float(rng.integers(-40, 41)) if rng.integers(0, 4) else float(rng.choice([-1, 1])) * float(2 ** int(rng.integers(20, 53)))
+        t = int(rng.integers(0, 7))
+        if t == 0: x = k
+        elif t == 1: x = float(np.nextafter(k, np.inf))
+        elif t == 2: x = float(np.nextafter(k, -np.inf))
+        elif t == 3: x = k + 0.5
+        elif t == 4: x = k + float(rng.uniform(-1, 1))
+        elif t == 5: x = float(rng.choice([-0.0, 0.0, 5e-324, -5e-324, 1 - 2.0 ** -53, -(1 - 2.0 ** -53)]))
+        else: x = float(rng.uniform(-1, 1)) * 10.0 ** float(rng.uniform(-12, 15))
+        v.append(x)
+    return v
 
 # ------------------------------------------------------------------------------------------ implementation
 def _sh2(stage, in_shape):
@@ -328,6 +378,7 @@ def _mask_box(stage):
     if stage['mask'] is None: return None
     mk = np.array(stage['mask']['bits']).reshape(stage['mask']['shape'])
     rows = np.where((mk > 0).any(axis=1))[0]; cols = np.where((mk > 0).any(axis=0))[0]
+    if not len(rows): return 'empty'
     return [int(rows[0]), int(rows[-1]), int(cols[0]), int(cols[-1])]
 
 def _bits_field(f):
@@ -338,12 +389,12 @@ def requests(c, io):
     if c.get('nomodel'): return []
     st = c['stages'][-1]
     inp = io['in']
-    sh = _sh2(st, inp['shape'])
-    ps = sh if st['prop_shape'] is None else ([st['prop_shape']] * 2 if isinstance(st['prop_shape'], int) else st['prop_shape'])
+    # the call's arguments as written (None / int / pair): defaults and broadcasting are resolved by the model's generated code
     return [{'op': 'c02.propagate_dft', 'fields': [_bits_field(f) for f in inp['fields']],
              'dx': vlib.fl(inp['pixelscale']), 'du': vlib.fl(st['du']), 'wl': vlib.fbits(inp['wavelength']), 'z': vlib.fbits(inp['focal_length']),
-             'os': st['os'], 'shape': sh, 'prop_shape': ps,
-             'mask_values': None if st['mask'] is None else {'shape': st['mask']['shape'], 'v': vlib.fl([float(b) for b in st['mask']['bits']])}}]
+             'os': st['os'], 'wshape': inp['shape'], 'shape': st['shape'], 'prop_shape': st['prop_shape'],
+             'mask_values': None if st['mask'] is None else {'shape': st['mask']['shape'], 'v': vlib.fl([float(b) for b in st['mask']['bits']])}}] + \
+           ([{'op': 'c02.fix', 'v': vlib.fl(c['fix_probe'])}] if c.get('fix_probe') else [])
 
 def _arr(d):
     return (np.array(vlib.unfl(d['re'])) + 1j * np.array(vlib.unfl(d['im']))).reshape(d['shape'])
@@ -371,8 +422,16 @@ def compare(c, io, mo):
     if r: return r
     if c.get('nomodel'): return None
     m = mo[0]
-    if 'exc' in io: return f"implementation raised {io['exc']}: {io.get('msg')} (model has no refusal here)"
-    if not m.get('ok'): return f"model refused: {m.get('err')}"
+    if len(mo) > 1:
+        if not mo[1].get('ok'): return f"model refused the truncation probe: {mo[1].get('err')}"
+        want = [int(np.fix(x)) for x in c['fix_probe']]
+        if list(mo[1]['fix']) != want: return f"np.fix{c['fix_probe']} = {want}, the model's truncation gives {list(mo[1]['fix'])}"
+    if 'exc' in io:
+        if m.get('ok'): return f"implementation raised {io['exc']}: {io.get('msg')}, the model answered"
+        if m.get('err') != io['exc']: return f"implementation raised {io['exc']}: {io.get('msg')}, the model refuses with {m.get('err')}"
+        return None
+    if not m.get('ok'): return f"model refused ({m.get('err')}), the implementation answered"
+    if list(m['out_shape']) != io['shape']: return f"output shape: implementation {io['shape']}, model {m['out_shape']} (shape/prop_shape defaults, broadcasting, oversample)"
     # the split the model derives (np.fix of the field's shift) is the split the code used
     for k, (f, sp) in enumerate(zip(io['in']['fields'], m['splits'])):
         msub = vlib.unfl(sp[2:])
@@ -419,12 +478,20 @@ def fraunhofer(canvas, ar, ac, gr, gc):
     return (E1 @ canvas.astype(np.clongdouble) @ E2) * np.sqrt(abs(L(ar) * L(ac)))
 
 def oracle(c, io):
-    if 'exc' in io: return f"propagate_dft raised {io['exc']}: {io.get('msg')}"
     st = c['stages'][-1]
+    bad = (st['mask'] or {}).get('bad')
+    if 'exc' in io:
+        # a mask without support, or of the wrong shape, must be refused (ValueError; NumPy's IndexError for the empty support is accepted as a refusal)
+        if bad == 'empty' and io['exc'] in ('ValueError', 'IndexError'): return None
+        if bad in ('both', 'rows', 'cols') and io['exc'] == 'ValueError': return None
+        return f"propagate_dft raised {io['exc']}: {io.get('msg')}"
     inp = io['in']
     os_ = st['os']
     sh = _sh2(st, inp['shape'])
     S = [sh[0] * os_, sh[1] * os_]
+    if bad == 'empty': return 'a mask without any sample above the threshold was accepted'
+    if bad in ('both', 'rows', 'cols'):
+        return f"{MASK_MSG}: mask of shape {st['mask']['shape']} accepted for an output array of shape {S}"
     ps = sh if st['prop_shape'] is None else ([st['prop_shape']] * 2 if isinstance(st['prop_shape'], int) else st['prop_shape'])
     P = [ps[0] * os_, ps[1] * os_]
     # metadata
